@@ -22,6 +22,8 @@ import (
 	"saomc/engine"
 	"saomc/replica"
 	"saomc/world"
+
+	dbm "github.com/tendermint/tm-db"
 )
 
 func tailOf(s string, n int) string {
@@ -52,6 +54,9 @@ func main() {
 		os.Exit(cmdExtra(os.Args[2:]))
 	case "replay":
 		os.Exit(cmdReplay(os.Args[2:]))
+	case "rpart":
+		// child process of the real-restart leg: saomc rpart <script> <dbdir> <from> <to> <out>
+		os.Exit(cmdRPart(os.Args[2:]))
 	case "script":
 		// debug: print the baseline transcript of an engine-R script
 		for _, sc := range []*replica.Script{checks.ScriptStorage(false), checks.ScriptStaking(), checks.ScriptStorage(true), checks.ScriptTies()} {
@@ -127,6 +132,36 @@ func cmdWorker(args []string) int {
 	bz, _ := json.Marshal(outs)
 	if err := os.WriteFile(*out, bz, 0o644); err != nil {
 		fmt.Fprintln(os.Stderr, err)
+		return 2
+	}
+	return 0
+}
+
+func cmdRPart(args []string) int {
+	if len(args) != 5 {
+		return 2
+	}
+	var sc *replica.Script
+	for _, s := range []*replica.Script{checks.ScriptStorage(false), checks.ScriptStaking(), checks.ScriptTies(), checks.ScriptStorage(true)} {
+		if s.Name == args[0] {
+			sc = s
+		}
+	}
+	if sc == nil {
+		return 2
+	}
+	from, _ := strconv.Atoi(args[2])
+	to, _ := strconv.Atoi(args[3])
+	db, err := dbm.NewGoLevelDB("application", args[1])
+	if err != nil {
+		fmt.Fprintln(os.Stderr, err)
+		return 2
+	}
+	w := world.NewOnDB(sc.Cfg, db, from == 0)
+	tr := replica.RunPart(sc, w, from, to)
+	w.Close()
+	db.Close()
+	if err := os.WriteFile(args[4], tr.JSON(), 0o644); err != nil {
 		return 2
 	}
 	return 0
